@@ -1116,6 +1116,62 @@ def w_bfs(arg):
 
 
 # ---------------------------------------------------------------------------
+# ---------------------------------------------------------------------------
+# several connections on one host (helpers in harness/c05_multi.py)
+# ---------------------------------------------------------------------------
+def w_multi(arg):
+    from ..harness import c05_multi as m
+
+    cases, seed = arg
+    warnings.simplefilter('ignore')
+    st = core.Stats('multi')
+    for cfg in cases:
+        out, info = m.run_multi(cfg, seed)
+        backlog = info['backlog_at_flush']
+        # pending counts the packets in flight too: a real backlog is more than the buffer count
+        backlog = None if backlog is None else max(0, backlog - cfg['N'])
+        st.case(sorted(cfg.items()), None, nontrivial=bool(backlog))
+        if backlog is None:
+            st.count('no_disconnection_seen')
+        elif backlog:
+            st.count('flushes_with_backlog')
+            st.add('backlogs_at_flush', min(backlog, 50))
+            if info['same_queue']:
+                st.count('flushes_with_backlog_on_shared_queue')
+        record(st, out, {'cfg': cfg, 'salt': seed})
+    if cases:
+        st.samples.append({'example': cases[0], 'cases': len(cases)})
+    return st
+
+
+def w_dual(arg):
+    from ..harness import c05_multi as m
+
+    cfgs, quick, seed = arg
+    warnings.simplefilter('ignore')
+    st = core.Stats('dual')
+    for cfg in cfgs:
+        d = m.Dual(cfg, seed)
+        try:
+            st.add('handle_layouts', (cfg['le_addr'], cfg['first'], d.handle['le'], d.handle['classic']))
+            n = 0
+            for plan in m.dual_plans(d.L['le'], d.L['classic'], quick):
+                n += 1
+                salt = seed * 5 + n
+                out = d.run(plan, salt)
+                st.case((sorted(cfg.items()), plan), None)
+                st.count('pdus_sent', len(plan))
+                if out:
+                    record(st, out, {'cfg': cfg, 'plan': [list(x) for x in plan], 'salt': salt})
+                    d.close()
+                    d = m.Dual(cfg, seed)
+            if len(st.samples) < 2:
+                st.samples.append({'config': cfg, 'plans': n, 'example': [list(x) for x in plan]})
+        finally:
+            d.close()
+    return st
+
+
 def run(ctx: core.Context) -> int:
     quick = ctx.quick
     only = getattr(ctx, 'only', None)
@@ -1156,6 +1212,26 @@ def run(ctx: core.Context) -> int:
             e2e.merge(r)
         ctx.log(f'e2e: {e2e.summary()}')
 
+    multi = ctx.sub('multi')
+    dual = ctx.sub('dual')
+    if not only or 'multi' in only or 'dual' in only:
+        from ..harness import c05_multi as m
+
+        work = []
+        if not only or 'multi' in only:
+            cases = m.multi_cases(quick)
+            work += [(w_multi, (part, seed)) for part in core.split(cases, ctx.jobs * 4)]
+        nmulti = len(work)
+        if not only or 'dual' in only:
+            work += [(w_dual, ([cfg], quick, seed)) for cfg in m.dual_configs(quick)]
+        res = core.pmap(_dispatch, work, ctx.jobs)
+        for r in res[:nmulti]:
+            multi.merge(r)
+        for r in res[nmulti:]:
+            dual.merge(r)
+        ctx.log(f'multi: {multi.summary()}')
+        ctx.log(f'dual: {dual.summary()}')
+
     extra = {
         'states': asm.counters.get('states', 0),
         'transitions': asm.counters.get('transitions', 0),
@@ -1172,6 +1248,9 @@ def run(ctx: core.Context) -> int:
             + ('one side varied at a time + diagonal' if quick else 'full product')
             + ') x PDU sequences of length 1-3 over payload lengths {0,1,kL-4+{-1,0,1}} in direction 0->1, 1->0 and duplex, plus large PDUs '
             'up to 65535 for each sender L; a case = one sequence, executed on two real stacks and checked at three observation points. '
+            'multi: device 0 connected to devices 1 and 2 on one host queue (le / classic / le sharing BR/EDR buffers / one LE + one BR/EDR link sharing them) x (L,N in {1,2,3}) x '
+            'which link survives x who closes the other x queueing order x 1-3 PDUs (10-24 fragments each) to the survivor, 0-2 to the closed link x number of loop steps before the disconnect; non-trivial = the queue still held packets when it was flushed. '
+            'dual: BR/EDR + LE links between the same two devices (LE own address public / random, either link first) x geometry per transport x traffic plans on all four streams; each PDU must arrive on its own handle. '
             'iso: (M,N) x SDU sequences of length 1-3 over lengths at every fragment boundary +-1 on a CIS and a BIS link. '
             'assembler: BFS to fixpoint over a ' + ('14' if quick else '16') + '-symbol fragment alphabet (+4 symbols on a second connection for the host path) with 5 well-formed final PDUs fed at every reachable state; a case = one transition or one final'
         ),
@@ -1202,6 +1281,20 @@ def replay(v: core.Violation):
         for check, sig, msg in out:
             if check == v.check and core.canon_json(dict(sig, check=check)) == v.key:
                 msgs.append(msg)
+    elif v.check in ('multi_fragment', 'multi_delivery'):
+        from ..harness import c05_multi as m
+
+        out, _ = m.run_multi(c['cfg'], c['salt'])
+        msgs += [msg for check, sig, msg in out if check == v.check and core.canon_json(dict(sig, check=check)) == v.key]
+    elif v.check in ('dual_fragment', 'dual_delivery'):
+        from ..harness import c05_multi as m
+
+        d = m.Dual(c['cfg'], 0)
+        try:
+            out = d.run([tuple(x) for x in c['plan']], c['salt'])
+        finally:
+            d.close()
+        msgs += [msg for check, sig, msg in out if check == v.check and core.canon_json(dict(sig, check=check)) == v.key]
     elif v.check == 'iso_fragment':
         rig = IsoRig(c['M'], c['N'])
         try:
